@@ -108,6 +108,7 @@ type backend interface {
 type etcdBackend struct {
 	base string // unique prefix per case so that cases do not see each other
 	cli  *clientv3.Client
+	made []api.MetaStoreFactory
 }
 
 func (b *etcdBackend) factory(root string) (api.MetaStoreFactory, error) {
@@ -115,10 +116,20 @@ func (b *etcdBackend) factory(root string) (api.MetaStoreFactory, error) {
 	if err != nil {
 		return nil, err
 	}
-	return store.NewEtcdMetaStoreWithAddress(context.Background(), []string{ep}, b.base+root)
+	f, err := store.NewEtcdMetaStoreWithAddress(context.Background(), []string{ep}, b.base+root)
+	if err == nil {
+		b.made = append(b.made, f)
+	}
+	return f, err
 }
 
-func (b *etcdBackend) close() {}
+// close releases the etcd clients of the stores of this case (the stores themselves have no Close)
+func (b *etcdBackend) close() {
+	for _, f := range b.made {
+		etcdsrv.CloseClientsOf(f)
+	}
+	b.made = nil
+}
 
 func (b *etcdBackend) dump(roots []string) ([]string, error) {
 	ctx, cancel := context.WithTimeout(context.Background(), 10*time.Second)
